@@ -15,6 +15,15 @@
                    ppn_sim ranks, contiguous or round robin); -1: do not attach at all
        flavour:    sc_shmem_type_t value (0 basic, 1 prescan, 2 window, 3 window_prescan with SC_ENABLE_MPIWINSHARED)
        dtype:      0 char 1 short 2 ushort 3 int 4 unsigned 5 long 6 ulong 7 longlong
+   HISTORY runs: a line  H <P> <seed> <adversary> <ppn_sim> <noncontig> <dtype> <count> <dataseed> <nops> {<kind> <c> <ppn>}*
+     a history of operations on communicator 0 (a dup of the world) and communicator 1 (its MPI_Comm_dup, while it exists):
+       kind 0: sc_mpi_comm_attach_node_comms (comm c, ppn)   (ppn 0: MPI_Comm_split_type; NO detach in front: MPI_Comm_set_attr
+               replaces the attribute)      kind 1: sc_mpi_comm_detach_node_comms (comm c)
+       kind 2: comm 1 = MPI_Comm_dup (comm 0)                   kind 3: MPI_Comm_free (comm 1)
+     After EVERY operation k, on every existing communicator c, every rank reports (token s<k>c<c>=...):
+       grid ; write_start grants for flavours 0..3 ; the array after sc_shmem_allgather for flavours 0..3 ; after sc_shmem_prefix for
+       the window flavours 2, 3   (hex, separated by ';').  At the end: free comm 1 if it exists, detach and free comm 0.
+     Trace notes h<k> after operation k, hfin after the final detach (the check counts the node communicators alive there).
    Every rank: dup world, attach, set type, [dup again]; reports the grid (rank/size on both attached communicators);
      A = shmem array of P*count items, sc_shmem_allgather of `count` own items;
      B = shmem array of (P+1)*count items, sc_shmem_prefix (SUM);
@@ -176,9 +185,122 @@ static void rank_main (int rank, int size, void *varg)
   a->out[rank] = o;
 }
 
+/* ---- histories of attach / detach / dup / free ---------------------------------------------------------------------------- */
+#define HMAXOPS 12
+typedef struct { int nops, kind[HMAXOPS], c[HMAXOPS], pa[HMAXOPS], dtype, count; unsigned dseed; char **out; } harg_t;
+
+static char *hist_report (sc_MPI_Comm comm, int rank, int size, harg_t * a, const char *mine, char *q, int step, int ci)
+{
+  const int ts = tsize[a->dtype], cnt = a->count;
+  const size_t nA = (size_t) size * cnt * ts, nB = (size_t) (size + 1) * cnt * ts;
+  sc_MPI_Comm intra = sc_MPI_COMM_NULL, inter = sc_MPI_COMM_NULL;
+  int ir = -1, is = -1, er = -1, es = -1, w[4];
+  char *ag[4], *pre[2];
+
+  sc_mpi_comm_get_node_comms (comm, &intra, &inter);
+  if (intra != sc_MPI_COMM_NULL) { sc_MPI_Comm_rank (intra, &ir); sc_MPI_Comm_size (intra, &is); }
+  if (inter != sc_MPI_COMM_NULL) { sc_MPI_Comm_rank (inter, &er); sc_MPI_Comm_size (inter, &es); }
+  for (int fl = 0; fl < 4; ++fl) {
+    sc_shmem_set_type (comm, (sc_shmem_type_t) fl);
+    char *A = (char *) sc_shmem_malloc (sc_package_id, (size_t) ts, (size_t) size * cnt, comm);
+    sc_shmem_allgather ((void *) mine, cnt, mpitype (a->dtype), A, cnt, mpitype (a->dtype), comm);
+    ag[fl] = (char *) malloc (nA + 1); memcpy (ag[fl], A, nA);
+    w[fl] = sc_shmem_write_start (A, comm);
+    sc_shmem_write_end (A, comm);
+    sc_shmem_free (sc_package_id, A, comm);
+    if (fl >= 2) {
+      char *B = (char *) sc_shmem_malloc (sc_package_id, (size_t) ts, (size_t) (size + 1) * cnt, comm);
+      sc_shmem_prefix ((void *) mine, B, cnt, mpitype (a->dtype), sc_MPI_SUM, comm);
+      pre[fl - 2] = (char *) malloc (nB + 1); memcpy (pre[fl - 2], B, nB);
+      sc_shmem_free (sc_package_id, B, comm);
+    }
+  }
+  q += sprintf (q, " s%dc%d=%d/%d/%d/%d;%d%d%d%d", step, ci, ir, is, er, es, w[0], w[1], w[2], w[3]);
+  for (int fl = 0; fl < 4; ++fl) { *q++ = ';'; q = hexdup (ag[fl], nA, q); free (ag[fl]); }
+  for (int k = 0; k < 2; ++k) { *q++ = ';'; q = hexdup (pre[k], nB, q); free (pre[k]); }
+  (void) rank;
+  return q;
+}
+
+static void hist_main (int rank, int size, void *varg)
+{
+  harg_t *a = (harg_t *) varg;
+  const int ts = tsize[a->dtype], cnt = a->count;
+  const size_t per = 2 * (4 * (size_t) size * cnt * ts + 2 * (size_t) (size + 1) * cnt * ts) + 128;
+  sc_MPI_Comm comm[2] = { sc_MPI_COMM_NULL, sc_MPI_COMM_NULL };
+  int mpiret;
+  char note[16];
+  char *mine = SC_ALLOC (char, (size_t) cnt * ts + 1);
+  char *o = (char *) malloc (per * 2 * (size_t) (a->nops + 1) + 64), *q = o;
+
+  *q = 0;
+  for (int c = 0; c < cnt; ++c) put_item (a->dtype, a->dseed, rank, c, mine + (size_t) c * ts);
+  mpiret = sc_MPI_Comm_dup (sc_MPI_COMM_WORLD, &comm[0]); SC_CHECK_MPI (mpiret);
+  for (int k = 0; k < a->nops; ++k) {
+    const int c = a->c[k];
+    switch (a->kind[k]) {
+    case 0: sc_mpi_comm_attach_node_comms (comm[c], a->pa[k]); break;
+    case 1: sc_mpi_comm_detach_node_comms (comm[c]); break;
+    case 2: mpiret = sc_MPI_Comm_dup (comm[0], &comm[1]); SC_CHECK_MPI (mpiret); break;
+    default: mpiret = sc_MPI_Comm_free (&comm[1]); SC_CHECK_MPI (mpiret); comm[1] = sc_MPI_COMM_NULL; break;
+    }
+    snprintf (note, sizeof note, "h%d", k);
+    simmpi_trace_note (note);
+    for (int ci = 0; ci < 2; ++ci) if (comm[ci] != sc_MPI_COMM_NULL) q = hist_report (comm[ci], rank, size, a, mine, q, k, ci);
+  }
+  simmpi_trace_note ("hend");
+  if (comm[1] != sc_MPI_COMM_NULL) { mpiret = sc_MPI_Comm_free (&comm[1]); SC_CHECK_MPI (mpiret); }
+  sc_mpi_comm_detach_node_comms (comm[0]);
+  simmpi_trace_note ("hfin");
+  mpiret = sc_MPI_Comm_free (&comm[0]); SC_CHECK_MPI (mpiret);
+  SC_FREE (mine);
+  a->out[rank] = o;
+}
+
+/* parses and runs one history line; returns 0 if the line is not well formed */
+static int hist_line (const char *line, int run, const char *tpath)
+{
+  int P, adv, ppn_sim, noncontig, n = 0, m, valid = 1, dupalive = 0; unsigned long seed; harg_t a;
+  if (sscanf (line, "H %d %lu %d %d %d %d %d %u %d%n", &P, &seed, &adv, &ppn_sim, &noncontig, &a.dtype, &a.count, &a.dseed, &a.nops, &n) < 9) return 0;
+  if (P < 1 || a.dtype < 0 || a.dtype > 7 || a.count < 0 || a.nops < 0 || a.nops > HMAXOPS) valid = 0;
+  for (int k = 0; valid && k < a.nops; ++k) {
+    if (sscanf (line + n, "%d %d %d%n", &a.kind[k], &a.c[k], &a.pa[k], &m) < 3) { valid = 0; break; }
+    n += m;
+    /* only histories the MPI standard allows: communicator 1 exists between kind 2 and kind 3 */
+    if (a.kind[k] < 0 || a.kind[k] > 3 || a.c[k] < 0 || a.c[k] > 1) valid = 0;
+    else if (a.kind[k] <= 1 && a.c[k] == 1 && !dupalive) valid = 0;
+    else if (a.kind[k] == 2) { if (dupalive) valid = 0; dupalive = 1; }
+    else if (a.kind[k] == 3) { if (!dupalive) valid = 0; dupalive = 0; }
+    if (valid && a.kind[k] == 0 && a.pa[k] > 0 && P % a.pa[k]) valid = 0;
+  }
+  if (!valid) { printf ("RUN %d rc=-1 steps=0\nEND %d mem=0\n", run, run); return 1; }
+  a.out = (char **) calloc ((size_t) P, sizeof (char *));
+  int mem0 = sc_memory_status (-1) + sc_memory_status (sc_package_id);
+  simmpi_opts o; simmpi_report rep;
+  simmpi_opts_default (&o);
+  o.nranks = P; o.seed = seed; o.adversary = adv; o.trace_path = tpath; o.ppn = ppn_sim; o.noncontig_nodes = noncontig;
+  fflush (stdout);
+  alarm (RUN_SECONDS);
+  int rc = simmpi_run (&o, hist_main, &a, &rep);
+  alarm (0);
+  printf ("RUN %d rc=%d steps=%ld\n", run, rc, rep.steps);
+  printf ("OUT info warn=%d leaks=%d types=%d\n", rep.nwarnings, rep.nleaks, (int) SC_SHMEM_NUM_TYPES);
+  if (rc || rep.nwarnings || rep.nleaks) { char *t = rep.text; for (char *p = t; *p; ++p) if (*p == '\n') *p = '~'; printf ("REPORT %s\n", t); }
+  for (int r = 0; r < P; ++r) { printf ("OUT %d%s\n", r, a.out[r] ? a.out[r] : " none"); free (a.out[r]); }
+  printf ("TRACE-BEGIN\n");
+  FILE *f = fopen (tpath, "r");
+  if (f) { static char buf[65536]; size_t nr; while ((nr = fread (buf, 1, sizeof buf, f)) > 0) fwrite (buf, 1, nr, stdout); fclose (f); }
+  printf ("TRACE-END\n");
+  printf ("END %d mem=%d\n", run, sc_memory_status (-1) + sc_memory_status (sc_package_id) - mem0);
+  fflush (stdout);
+  simmpi_report_free (&rep);
+  free (a.out);
+  return 1;
+}
+
 int main (void)
 {
-  static char line[1024];
+  static char line[4096];
   char tpath[256];
   int run = 0;
   sc_init (sc_MPI_COMM_NULL, 0, 0, NULL, SC_LP_SILENT);
@@ -187,6 +309,7 @@ int main (void)
   snprintf (tpath, sizeof tpath, "%s/trace.%d.jsonl", getenv ("VERIF_SCRATCH") ? getenv ("VERIF_SCRATCH") : "/var/tmp", (int) getpid ());
   while (fgets (line, sizeof line, stdin)) {
     int P, adv, ppn_sim, noncontig; unsigned long seed; arg_t a;
+    if (line[0] == 'H') { if (hist_line (line, run, tpath)) ++run; continue; }
     a.sync = 1; a.dup = 0; a.stype = a.rtype = -1;
     if (sscanf (line, "%d %lu %d %d %d %d %d %d %d %u %d %d %d %d", &P, &seed, &adv, &a.ppn_attach, &ppn_sim, &noncontig, &a.flavour, &a.dtype, &a.count, &a.dseed, &a.sync, &a.dup, &a.stype, &a.rtype) < 10) continue;
     if (P < 1 || a.dtype < 0 || a.dtype > 7 || a.count < 0 || a.flavour < 0 || a.flavour >= (int) SC_SHMEM_NUM_TYPES
